@@ -13,7 +13,7 @@ RULE = ("zones rasters (int/float ids, NaN/+-inf zone cells) x categorical value
         "zones x <= 4 categories every subset and permutation of both id lists (exhaustive kind); agg count and percentage (2-D), "
         "the seven aggregates on 3-D values (NumPy) and count on 3-D Dask; NumPy backend (zones and values independently in C / Fortran / strided / negative-stride layouts) and Dask with equal chunking; non-trivial "
         "= distinct (zones, values, selection, agg) with >= 2 zones, >= 2 categories and a restricted or permuted selection")
-BUDGET = {'quick': 100, 'thorough': 700}
+BUDGET = {'quick': 200, 'thorough': 700}
 FLOORS = {'quick': {'entries': 400, 'restricted.cat_ids': 150, 'restricted.zone_ids_unsorted': 100, 'percentage.rows_sum_100': 51,
                     'xtab3d': 60, 'layouts_differ_between_inputs': 60, 'dask.2d': 34, 'exhaustive.selections': 1500},
           'thorough': {'entries': 4000, 'exhaustive.selections': 30000, 'xtab3d': 1000}}
